@@ -71,7 +71,7 @@ def rejection(ref, x):
 def plan(tier):
     if tier == "thorough":
         return {"cases": 12000, "shards": 16, "budget_s": 800}
-    return {"cases": 1300, "shards": 8, "budget_s": 110}
+    return {"cases": 1200, "shards": 8, "budget_s": 110}
 
 
 def floors(tier):
